@@ -211,6 +211,129 @@ Example ex_spiral_fails :
   /\ calc (enough_fuel ex_spiral) ex_spiral ex_pop (init []) 1 ex_p = (init [], Err EOther).
 Proof. vm_compute. auto. Qed.
 
+(** ** The rule system changes under the live simulation (Corr_C18.CSeq: the machine state
+       is carried from one rule system to the next)
+
+    Proofs in proofs/EngineC18Change.v.  [same_fields x x']: [x'] has the entity, type,
+    definition period, default and neutralisation of [x] (its formulas and end date are
+    free).  [replace_var sy v x']: variable number [v] becomes [x']
+    (TaxBenefitSystem.replace_variable / update_variable).  [add_var sy x]: [x] becomes the
+    new last variable, number [length (vars sy)] (TaxBenefitSystem.add_variable). *)
+From Verif Require Import EngineC18Change.
+
+(** The general fact.  [sy'] keeps every variable of [sy] with the same attributes, and at
+    every (variable, period) either runs the same formula or the variable had no value under
+    [sy] (its computation failed); nothing is cached for a variable [sy] did not know.  Then a
+    state between two requests under [sy] is one under [sy']: every cached entry is a meaning
+    of [sy'] - a computation that succeeded cannot have read one that failed. *)
+Theorem cache_survives_change_of_failing_formulas : forall sy sy' pp inp,
+  ranked sy = true -> 1 <= max_loops sy ->
+  params sy' = params sy ->
+  (forall k, existsb (Nat.eqb k) (switches sy') = true -> existsb (Nat.eqb k) (switches sy) = true) ->
+  (forall w x, nth_error (vars sy) w = Some x ->
+     exists x', nth_error (vars sy') w = Some x' /\ same_fields x x'
+                /\ forall p, formula_at x' p = formula_at x p \/ (forall a, sem sy pp inp w p <> Ok a)) ->
+  forall s,
+  (forall w x', nth_error (vars sy') w = Some x' -> nth_error (vars sy) w = None ->
+                forall q, lookup (w, q) (cache s) = None) ->
+  Top sy pp inp s -> Top sy' pp inp s.
+Proof. exact Top_change. Qed.
+Print Assumptions cache_survives_change_of_failing_formulas.
+
+(** Cause removed by correcting the class of variable [v]: at every period at which the
+    corrected variable does not run the formula it ran before, [v] had no value (the exact
+    condition; in particular nothing is cached for [v] there, nor for any reader of it, by
+    [no_entry_for_unfinished]).  The state is a [Top] state of the corrected system and
+    every request made afterwards - the failed one again - returns its meaning there. *)
+Theorem succeeds_once_variable_replaced : forall sy pp inp, ranked sy = true -> 1 <= max_loops sy ->
+  forall v x x' s,
+  nth_error (vars sy) v = Some x -> same_fields x x' ->
+  ranked (replace_var sy v x') = true ->
+  (forall p, formula_at x' p = formula_at x p \/ (forall a, sem sy pp inp v p <> Ok a)) ->
+  Top sy pp inp s ->
+  Top (replace_var sy v x') pp inp s
+  /\ forall rs, forallb is_calc_request rs = true ->
+     snd (run (enough_fuel (replace_var sy v x')) (replace_var sy v x') pp s rs)
+       = map (sem_answer (replace_var sy v x') pp inp) rs.
+Proof. exact variable_replaced. Qed.
+Print Assumptions succeeds_once_variable_replaced.
+
+(** Cause removed by adding the variable that was unknown.  Full statement: *)
+Definition succeeds_once_variable_added_statement : Prop :=
+  forall sy pp inp, ranked sy = true -> 1 <= max_loops sy ->
+  forall x s,
+  v_formulas x = [] ->        (* or: formulas reading only variables that do not read the new one *)
+  (forall q, lookup (length (vars sy), q) (cache s) = None) ->
+  Top sy pp inp s ->
+  Top (add_var sy x) pp inp s
+  /\ forall rs, forallb is_calc_request rs = true ->
+     snd (run (enough_fuel (add_var sy x)) (add_var sy x) pp s rs) = map (sem_answer (add_var sy x) pp inp) rs.
+
+(** Proved: the state is a [Top] state of the extended system - every cached entry is a
+    meaning there: the variables that referenced the unknown index failed and stored
+    nothing - and the answers are the meanings WHEN THE EXTENDED SYSTEM IS RANKED.
+    Missing: [EngineProofs.ranked] orders variables by their number and the added variable
+    takes the last number although the formula that asked for it has a smaller one, so the
+    extended system of the scenario is ranked by another order than the index order;
+    [calc_refines] would have to be re-proved for an arbitrary rank function (EngineProofs.v
+    is not mine to edit).  The answers after the addition are covered by the correspondence
+    (harness/c18.py, "addvar" segments) and by the example below. *)
+Theorem succeeds_once_variable_added_partial : forall sy pp inp, ranked sy = true -> 1 <= max_loops sy ->
+  forall x s,
+  (forall q, lookup (length (vars sy), q) (cache s) = None) ->
+  Top sy pp inp s ->
+  Top (add_var sy x) pp inp s
+  /\ (ranked (add_var sy x) = true ->
+      forall rs, forallb is_calc_request rs = true ->
+      snd (run (enough_fuel (add_var sy x)) (add_var sy x) pp s rs) = map (sem_answer (add_var sy x) pp inp) rs).
+Proof. exact variable_added. Qed.
+Print Assumptions succeeds_once_variable_added_partial.
+
+(** No request ever records anything for a variable the system does not know (the cache
+    hypothesis of the two theorems above is kept by every request). *)
+Theorem unknown_variable_is_never_cached : forall sy pp inp, ranked sy = true -> 1 <= max_loops sy ->
+  forall s r w q, Top sy pp inp s -> is_calc_request r = true ->
+  nth_error (vars sy) w = None -> lookup (w, q) (cache s) = None ->
+  lookup (w, q) (cache (fst (step (enough_fuel sy) sy pp s r))) = None.
+Proof. exact unknown_variable_never_cached. Qed.
+Print Assumptions unknown_variable_is_never_cached.
+
+(** Non-vacuity.  v0 input; v1 = v0 + 1; v2 = v1 + v0(not-a-period): fails at every period.
+    The request fails (v1 is recorded, v2 is not); the class of v2 is corrected
+    (v2 = v1 + v0); the same request on the same state returns the value. *)
+Definition ex_bad : sys :=
+  {| vars := [ mk_var EPerson TInt Month None [] 0%Z false false;
+               mk_var EPerson TInt Month None [((1, 1, 1)%Z, EBin BAdd (EDep 0 PSame OPlain) (EConst 1))] 0%Z false false;
+               mk_var EPerson TInt Month None [((1, 1, 1)%Z, EBin BAdd (EDep 1 PSame OPlain) (EDep 0 PBad OPlain))] 0%Z false false ];
+     params := []; switches := []; max_loops := 1 |}.
+Definition ex_v2_fixed : var :=
+  mk_var EPerson TInt Month None [((1, 1, 1)%Z, EBin BAdd (EDep 1 PSame OPlain) (EDep 0 PSame OPlain))] 0%Z false false.
+Example ex_replaced :
+  let s1 := fst (run (enough_fuel ex_bad) ex_bad ex_pop (init ex_inp) [RCalc 2 ex_p]) in
+  ranked ex_bad = true /\ ranked (replace_var ex_bad 2 ex_v2_fixed) = true
+  /\ snd (run (enough_fuel ex_bad) ex_bad ex_pop (init ex_inp) [RCalc 2 ex_p]) = [AErr EPeriod]
+  /\ cache s1 = [((1, ex_p), [11; 21; 31]%Z); ((0, ex_p), [10; 20; 30]%Z)]
+  /\ snd (run (enough_fuel ex_bad) (replace_var ex_bad 2 ex_v2_fixed) ex_pop s1 [RCalc 2 ex_p])
+     = [AVal [21; 41; 61]%Z].
+Proof. vm_compute. auto 6. Qed.
+
+(** v0 input; v1 = v0 + v2 where v2 is unknown: fails; v2 is added (an input variable),
+    given a value, and the same request on the same state returns the value. *)
+Definition ex_unknown : sys :=
+  {| vars := [ mk_var EPerson TInt Month None [] 0%Z false false;
+               mk_var EPerson TInt Month None [((1, 1, 1)%Z, EBin BAdd (EDep 0 PSame OPlain) (EDep 2 PSame OPlain))] 0%Z false false ];
+     params := []; switches := []; max_loops := 1 |}.
+Definition ex_new_var : var := mk_var EPerson TInt Month None [] 5%Z false false.
+Example ex_added :
+  let s1 := fst (run (enough_fuel ex_unknown) ex_unknown ex_pop (init ex_inp) [RCalc 1 ex_p]) in
+  let sy' := add_var ex_unknown ex_new_var in
+  ranked ex_unknown = true
+  /\ snd (run (enough_fuel ex_unknown) ex_unknown ex_pop (init ex_inp) [RCalc 1 ex_p]) = [AErr ENotFound]
+  /\ snd (run (enough_fuel sy') sy' ex_pop s1 [RCalc 1 ex_p; RSetInput 2 (Month, (2018, 4, 1)%Z, 1%Z) [1; 2; 3]%Z;
+                                               RCalc 1 (Month, (2018, 4, 1)%Z, 1%Z)])
+     = [AVal [15; 25; 35]%Z; ANone; AVal [1; 2; 3]%Z].
+Proof. vm_compute. auto. Qed.
+
 (** ** Tie to the regenerated order of the evaluator's steps and to the regenerated routing
        of an input
 
